@@ -239,6 +239,8 @@ def run(ctx):
     # fractions, constructed from numbers of every kind and from strings (Money.tla, big naturals)
     from checks import c08, moneycheck
     moneycheck.judge(ctx, c08.construct_cases(quick), 'quantized-construct', codes=['EUR'])
+    # text naming the symbol of a currency whose declaration was rejected is text with an unknown symbol
+    moneycheck.judge(ctx, c08.newcur_cases(), 'rejected-currencies', codes=['EUR'])
 
 
 def replay(ctx, rp):
